@@ -46,7 +46,9 @@ class Stream:
             elif ln.startswith("V ") and cur is not None:
                 vlines[cur].append(ln)
         summary = None
-        errors = []
+        errors = [ln for ln in d.stdout.splitlines() if ln.startswith("X ")]
+        if errors:
+            raise RuntimeError("driver reported errors: " + "; ".join(e[:300] for e in errors[:3]))
         for ln in d.stdout.splitlines():
             if ln.startswith("C "):
                 f = ln.split(" ", 3)
@@ -221,3 +223,96 @@ def load_corpus(prop):
 
 
 CHECKS = {"C06": check_C06}
+
+
+# ------------------------------------------------------------------------------------------------ policy streams
+def policy_stream(ctx, prop, kinds, npol, nev, arches=None, defects=None, le_choices=(0, 1), replay=None,
+                  defect_share=0.0, foreign_share=0.15, extra_cases=None):
+    """Generate policies of the given kinds, compile them with the implementation and the model, and run the
+    implementation's programs on partition events against the specification. Returns dict with results."""
+    rng = random.Random(ctx.seed * 1000003 + int(prop[1:]))
+    h, err = ctx.build_harness()
+    if not h:
+        ctx.violation("broken-obligation", dict(what="the harness does not build against the repository", log=err[-3000:]), False)
+        return None
+    st = Stream(ctx)
+    consts, arches_tbl = st.load_header()
+    pg = PolicyGen(rng, consts, arches_tbl)
+    lines = []
+    meta = {}
+    dist = {}
+    if replay:
+        lines = [replay["case"]] + ([replay["event"]] if replay.get("event") else [])
+    else:
+        lines += load_corpus(prop)
+        for i in range(npol):
+            kind = rng.choice(kinds)
+            an = rng.choice(arches or PolicyGen.TABLE_ARCHES)
+            defect = None
+            if defects and rng.random() < defect_share:
+                defect = rng.choice(defects)
+            pol = pg.policy(archname=an, kind=kind, defect=defect)
+            le = rng.choice(le_choices)
+            cid = "p%d" % i
+            meta[cid] = dict(kind=kind, arch=an, defect=defect, le=le, groups=len(pol["groups"]))
+            key = kind + ("/" + defect if defect else "")
+            dist[key] = dist.get(key, 0) + 1
+            lines.append("P %s %d %s %s" % (cid, le, an, PolicyGen.tokens(pol)))
+            if nev:
+                lines += pg.events(pol, nev, foreign_share=foreign_share)
+        for (cid, line, evs, m) in (extra_cases(pg, rng) if extra_cases else []):
+            meta[cid] = m
+            dist[m.get("kind", "extra")] = dist.get(m.get("kind", "extra"), 0) + 1
+            lines.append(line)
+            lines += evs
+    cases, summary = st.run(lines)
+    return dict(cases=cases, summary=summary, meta=meta, dist=dist, consts=consts, arches=arches_tbl)
+
+
+def policy_coverage(ctx, res, rule, nontrivial):
+    cases = res["cases"]
+    lens = [int(c["go"].split()[1]) for c in cases.values() if c["go"].startswith("OK")]
+    errs = {}
+    for c in cases.values():
+        if not c["go"].startswith("OK"):
+            errs[c["go"]] = errs.get(c["go"], 0) + 1
+    distinct = set(c["line"].split(" ", 2)[2].split(" | ")[0] for cid, c in cases.items() if nontrivial(cid, c))
+    outcomes = {}
+    for c in cases.values():
+        for e in c["events"]:
+            pass
+    ctx.coverage.update(dict(
+        evaluations=int(res["summary"]["cases"]) + int(res["summary"]["events"]),
+        programs=int(res["summary"]["cases"]), events_run=int(res["summary"]["events"]),
+        distinct_nontrivial=len(distinct), rule=rule,
+        input_distribution=dict(kinds=res["dist"], error_classes=errs, accepted=len(lens),
+                                program_length=dict(min=min(lens) if lens else 0, max=max(lens) if lens else 0,
+                                                    over_255=sum(1 for x in lens if x > 255), over_4096=sum(1 for x in lens if x > 4096))),
+        samples=[c["line"][:400] for c in list(cases.values())[:2]],
+    ))
+
+
+def check_core_policy(ctx, prop, prop_file, theorems, kinds, rule, replay=None, npol=(250, 4000), nev=(40, 80),
+                      gen=None, **kw):
+    proof_step(ctx, prop_file, theorems, gen=gen)
+    q = ctx.tier == "quick"
+    res = policy_stream(ctx, prop, kinds, npol[0] if q else npol[1], nev[0] if q else nev[1], replay=replay, **kw)
+    if res is None:
+        return None
+    meta = res["meta"]
+    ndiff, nbad = report_case_failures(ctx, res["cases"], "policies (%s)" % prop, describe=lambda cid: meta.get(cid))
+    policy_coverage(ctx, res, rule, lambda cid, c: c["go"].startswith("OK") and len(c["events"]) > 0)
+    ctx.coverage["correspondence_differences"] = ndiff
+    ctx.coverage["counterexamples"] = nbad
+    finish_with_proof_status(ctx, nbad, "%s theorems" % prop)
+    return res
+
+
+def check_C01(ctx, replay=None):
+    check_core_policy(ctx, "C01", "C01.v", ["C01_first_matching_group", "C01_errno_carries_eperm", "C01_other_actions_exact"],
+                      ["names", "names", "names_long", "whole_table", "degenerate"],
+                      "name-only policies (1..6 groups, 0..|table| names, all four tables, both byte orders), compiled by the implementation and the extracted model (instruction-exact comparison); every accepted program run on partition events (numbers of all listed names +-1, boundary numbers, foreign architectures) against the extracted decide; non-trivial = accepted policy with events evaluated",
+                      replay=replay)
+
+
+CHECKS.update({"C01": check_C01})
